@@ -8,12 +8,16 @@ package c10
 
 import (
 	"fmt"
+	"os"
+	"sort"
+	"strings"
 	"time"
 
 	sdkmath "cosmossdk.io/math"
 	sdk "github.com/cosmos/cosmos-sdk/types"
 	banktypes "github.com/cosmos/cosmos-sdk/x/bank/types"
 	transfertypes "github.com/cosmos/ibc-go/v7/modules/apps/transfer/types"
+	"github.com/ethereum/go-ethereum/common"
 
 	erc20types "github.com/haqq-network/haqq/x/erc20/types"
 
@@ -33,12 +37,14 @@ type flight struct {
 
 type ibcDriver struct {
 	*driver
+	names    []string // pairs in this family's alphabet
+	rogue    bool     // family of misbehaving tokens: hook-path deposits and the thief's transferFrom are in the alphabet
 	voucher  token
 	pend     []*flight // per depth; nil = nothing in flight
 	lastPend string    // the in-flight packet after the latest operation (part of the state digest)
 }
 
-func newIBCDriver(tier string) *ibcDriver {
+func newIBCDriver(tier string, rogue bool) *ibcDriver {
 	d := newDriver(tier)
 	w := d.w
 	if err := w.OpenLocalhostChannels(w.Ctx()); err != nil {
@@ -63,7 +69,35 @@ func newIBCDriver(tier string) *ibcDriver {
 	if err != nil {
 		panic("register voucher: " + err.Error())
 	}
-	id := &ibcDriver{driver: d, voucher: token{"voucher", pair.GetERC20Contract(), v, "coin"}}
+	id := &ibcDriver{driver: d, voucher: token{"voucher", pair.GetERC20Contract(), v, "coin"}, names: []string{"coin", "voucher", "honest"}, rogue: rogue}
+	if rogue {
+		id.names = []string{"directmanip", "delayed"}
+		d.via = func(t token, p []string) string {
+			seen := map[string]bool{}
+			var kinds []string
+			for _, op := range p {
+				if !strings.Contains(op, "("+t.name+",") {
+					continue
+				}
+				k := op[:strings.IndexByte(op, '(')]
+				if !seen[k] && k != "toggle" {
+					seen[k] = true
+					kinds = append(kinds, k)
+				}
+			}
+			// an escrow built through the hook path is one finding whatever else happened to the token
+			if seen["transferToModule"] {
+				return "hook-deposit"
+			}
+			sort.Strings(kinds)
+			return strings.Join(kinds, "+")
+		}
+		// the third party hard-wired into the malicious token exists as an account (it can sign)
+		thief := sdk.AccAddress(common.HexToAddress("0x4dC6ac40Af078661fc43823086E1513635Eeab14").Bytes())
+		if _, err := w.RunMsg(w.Ctx(), banktypes.NewMsgSend(w.Addrs[1], thief, sdk.NewCoins(sdk.NewInt64Coin(world.Denom, 1)))); err != nil {
+			panic(err)
+		}
+	}
 	d.toks = append(d.toks, id.voucher)
 	id.pend = []*flight{nil}
 	d.atestSupply = w.App.BankKeeper.GetSupply(w.Ctx(), "atest").Amount
@@ -138,15 +172,19 @@ func (d *ibcDriver) ops(w *world.World, depth int, path []string) []engine.Op {
 	viol := func(res *engine.Result, t token, op, breach, what string, p []string, detail map[string]any) {
 		d.viol(res, t, "ibc."+op, breach, what, p, detail)
 	}
-	for _, tn := range []string{"coin", "voucher", "honest"} {
+	for _, tn := range d.names {
 		t := d.tokByName(tn)
 		srcCh := world.IBCChannelA
 		if tn == "voucher" {
 			srcCh = world.IBCChannelB // back towards its source
 		}
-		for _, cls := range []string{"1", "all", "all+1"} {
+		classes := []string{"1", "all", "all+1"}
+		if d.rogue {
+			classes = []string{"1", "coins", "all", "all+1"} // "coins": exactly the coin balance, no conversion needed
+		}
+		for _, cls := range classes {
 			for _, rcv := range []string{"R", "garbage"} {
-				if rcv == "garbage" && cls != "all" {
+				if rcv == "garbage" && cls != "all" && cls != "coins" {
 					continue
 				}
 				t, cls, rcv, srcCh := t, cls, rcv, srcCh
@@ -155,6 +193,9 @@ func (d *ibcDriver) ops(w *world.World, depth int, path []string) []engine.Op {
 						return "skip"
 					}
 					amt := pick(cls, d.unified(t, S))
+					if cls == "coins" {
+						amt = d.coinBal(t.denom, w.Addrs[S])
+					}
 					if !amt.IsPositive() {
 						return "skip"
 					}
@@ -279,7 +320,40 @@ func (d *ibcDriver) ops(w *world.World, depth int, path []string) []engine.Op {
 		return w.IBCTimeout(w.Ctx(), f.p, w.Addrs[relayer])
 	}, func(f *flight) bool { return !f.received })
 	// conversions and switches in between
-	for _, tn := range []string{"coin", "voucher", "honest"} {
+	if d.rogue {
+		thief := common.HexToAddress("0x4dC6ac40Af078661fc43823086E1513635Eeab14")
+		for _, tn := range d.names {
+			t := d.tokByName(tn)
+			// coins of the pair get into circulation through the hook path (the only way for these tokens)
+			add(fmt.Sprintf("transferToModule(%s,half)", tn), func(p []string, res *engine.Result) string {
+				amt := d.erc20Bal(t, w.Eth[S]).QuoRaw(2)
+				if !amt.IsPositive() {
+					return "skip"
+				}
+				if !d.call(S, t.addr, "transfer", d.modHex, amt.BigInt()) {
+					return "rejected"
+				}
+				return "ok"
+			})
+			// the third party the token's code approves on every transfer tries to pull the module's escrow
+			add(fmt.Sprintf("thief.transferFrom(%s,module)", tn), func(p []string, res *engine.Result) string {
+				esc := d.erc20Bal(t, d.modHex)
+				if !esc.IsPositive() {
+					return "skip"
+				}
+				// the allowance the token's code hands out is 10^18 per transfer
+				esc = sdkmath.MinInt(esc, sdkmath.NewIntFromBigInt(unit))
+				if _, err := w.App.Erc20Keeper.CallEVM(w.Ctx(), d.abi, thief, t.addr, true, "transferFrom", d.modHex, thief, esc.BigInt()); err != nil {
+					if os.Getenv("VERIF_RAWLOG") != "" {
+						fmt.Println("THIEF", err)
+					}
+					return "rejected"
+				}
+				return "ok"
+			})
+		}
+	}
+	for _, tn := range d.names {
 		t := d.tokByName(tn)
 		for _, k := range []int{S, R} {
 			t, k := t, k
